@@ -293,3 +293,20 @@ def fixture(name: str) -> Module:
     if not path.exists():
         raise AnalysisError(f"control fixture missing: {path}")
     return Module(f"fixtures.{name}", path, rel=f"fixtures/{name}.py")
+
+
+def class_tests(scope: ast.AST, subject: str) -> set[str]:
+    """Class names `subject` is tested against in `scope`: isinstance(subject, X | (X, Y)) calls and
+    `match subject: case X(): ...` class patterns (the two spellings of one dispatch)."""
+    out: set[str] = set()
+    for n in ast.walk(scope):
+        if isinstance(n, ast.Call) and call_name(n) == "isinstance" and len(n.args) == 2 and unparse(n.args[0]) == subject:
+            out |= {x.id for x in ast.walk(n.args[1]) if isinstance(x, ast.Name)}
+            out |= {x.attr for x in ast.walk(n.args[1]) if isinstance(x, ast.Attribute)}
+        elif isinstance(n, ast.Match) and unparse(n.subject) == subject:
+            for case in n.cases:
+                for pat in ast.walk(case.pattern):
+                    if isinstance(pat, ast.MatchClass):
+                        out |= {x.id for x in ast.walk(pat.cls) if isinstance(x, ast.Name)}
+                        out |= {x.attr for x in ast.walk(pat.cls) if isinstance(x, ast.Attribute)}
+    return out
